@@ -258,4 +258,19 @@ theorem getItemStr_zero_cons (x : α) (t : List α) : getItemStr (x :: t) 0 = .o
 theorem strOfInt_nat (p : Nat) : strOfInt (p : Int) = (toString p).toList := rfl
 
 
+/-! ### `next(x for x in xs if p)` -/
+
+theorem nextOf_filter_map {α β : Type} (p : α → Bool) (g : α → β) (l : List α) :
+    nextOf ((l.filter p).map g) =
+      match l.find? p with
+      | some x => .ok (g x)
+      | none => .error "StopIteration" := by
+  induction l with
+  | nil => rfl
+  | cons x t ih =>
+    by_cases h : p x = true
+    · simp [List.filter_cons, h, nextOf, List.find?_cons]
+    · have h' : p x = false := by simpa using h
+      simp only [List.filter_cons, h', Bool.false_eq_true, if_false, ih, List.find?_cons]
+
 end Wz.Pre
